@@ -238,7 +238,7 @@ func checkC05(tier string) {
 		for k := 0; k < 25; k++ {
 			p := append([]string{}, paths[rng.Intn(len(paths))]...)
 			if rng.Intn(3) == 0 {
-				p[rng.Intn(len(p))] = []string{"a b", "ä", "a+b", "100%", "x:y"}[rng.Intn(5)]
+				p[rng.Intn(len(p))] = []string{"a b", "ä", "a+b", "100%", "x:y", "a%41", "%25", "%2F", "%2e%2e", "50%20off", "%C3%A4"}[rng.Intn(11)] // the last ones are literal percent signs followed by hex digits: decoded once they must stay as they are
 			}
 			enc := make([]string, len(p))
 			for i, sgm := range p {
